@@ -171,8 +171,9 @@ def _run_chunk(args):
             lines.append(op)
             index.append((ci, oi))
     try:
-        p = subprocess.run([exe], input="\n".join(lines) + "\n", capture_output=True, text=True, timeout=timeout)
-        out, rc = p.stdout, p.returncode
+        # bytes in, bytes out: a mutated implementation may print anything (invalid UTF-8 included)
+        p = subprocess.run([exe], input=("\n".join(lines) + "\n").encode("utf-8"), capture_output=True, timeout=timeout)
+        out, rc = p.stdout.decode("utf-8", "replace"), p.returncode
     except subprocess.TimeoutExpired as e:
         out, rc = (e.stdout or b"").decode("utf-8", "replace") if isinstance(e.stdout, bytes) else (e.stdout or ""), -9
     res = {}
